@@ -13,13 +13,20 @@ def outcome_of_exception(e):
 
 
 async def one_exchange(client, url, method, peer, resp_index, settle_iterations=STALL_ITERATIONS,
-                       on_session=None):
+                       on_session=None, post_body=None):
     from wpull.protocol.http.request import Request
+    from wpull.body import Body
     out = {'error': None, 'phase': None}
     buf = io.BytesIO()
 
     async def go():
         request = Request(url, method=method)
+        if post_body is not None:
+            # what WebProcessorSession._add_post_data does for --post-data
+            request.method = 'POST'
+            request.fields['Content-Type'] = 'application/x-www-form-urlencoded'
+            request.fields['Content-Length'] = str(len(post_body))
+            request.body = Body(io.BytesIO(post_body))
         session = client.session()
         if on_session:
             on_session(session)
@@ -82,7 +89,7 @@ def run_sequence(responses, host='h.test', port=80, scheme='http', recorder_setu
             for i, resp in enumerate(responses):
                 url = resp.get('url') or '{}://{}{}/r{}'.format(
                     scheme, host, '' if port in (80, 443) else ':%d' % port, i)
-                out = await one_exchange(client, url, resp.get('method', 'GET'), peer, i)
+                out = await one_exchange(client, url, resp.get('method', 'GET'), peer, i, post_body=resp.get('post_body'))
                 out['url'] = url
                 conn_ids = [c for c, idx in peer.served if idx == i]
                 out['conn_id'] = conn_ids[0] if conn_ids else None
